@@ -59,11 +59,22 @@ class RecExec final : public yaclib::IExecutor {
     job.Call();
     current = prev;
   }
+  // counted like a reference-counted executor: every reference the library takes must come back (C03)
+  void IncRef() noexcept final {
+    ++refs;
+  }
+  void DecRef() noexcept final {
+    --refs;
+  }
+  std::size_t GetRef() noexcept final {
+    return static_cast<std::size_t>(refs + 1);
+  }
   void Reset(long rej) {
     submits = calls = drops = 0;
+    refs = 0;
     reject_from = rej;
   }
-  long submits = 0, calls = 0, drops = 0, reject_from = 9;
+  long submits = 0, calls = 0, drops = 0, reject_from = 9, refs = 0;
   const char* name = "";
   static inline RecExec* current = nullptr;
 };
@@ -674,7 +685,8 @@ std::string RunProgram(const Program& p) {
      << ";drops=" << g_e1.drops << "," << g_e2.drops << ";allocs=" << (stats1.news - stats0.news)
      << ";build_allocs=" << build_news
      << ";leak=" << (static_cast<long>(stats1.news - stats0.news) - static_cast<long>(stats1.deletes - stats0.deletes))
-     << ";flive=" << Tracker::live << ";cache=" << cache << ";copies=" << HV::copies;
+     << ";flive=" << Tracker::live << ";cache=" << cache << ";copies=" << HV::copies
+     << ";erefs=" << g_e1.refs << "," << g_e2.refs;
   g_run = nullptr;
   return os.str();
 }
